@@ -8,6 +8,12 @@ import hashlib
 import os
 
 REPO = os.environ.get('PYVC_REPO', '/repo')
+DATA_DIR = os.path.join(REPO, 'pgradd', 'data')
+if REPO != '/repo':
+    # scratch copies: the run-time stand-ins must import the same tree the obligations were generated from
+    import sys
+    sys.path.insert(0, REPO)
+    os.environ['PYTHONPATH'] = REPO + (os.pathsep + os.environ['PYTHONPATH'] if os.environ.get('PYTHONPATH') else '')
 
 
 class ModuleInfo:
